@@ -122,3 +122,87 @@ Proof.
   unfold fh_opendir. destruct (is_dir_mode _); cbn; split; intros; eauto; try discriminate.
   destruct H. discriminate.
 Qed.
+
+(* ---------------------------------------------------------------- children change only by create and remove *)
+
+Lemma children_some_inrange s p cs : n_children (getn s p) = Some cs -> (p < length s)%nat.
+Proof.
+  intros H. destruct (Nat.lt_ge_cases p (length s)); auto. rewrite getn_oob in H by auto. discriminate.
+Qed.
+
+(* create: exactly one new name is linked in the parent, nothing else changes *)
+Lemma link_child_exact s p nm c s' : link_child s p nm c = Ok s' ->
+  exists cs, n_children (getn s p) = Some cs /\ lookup_child cs nm = None /\
+    n_children (getn s' p) = Some (cs ++ [(nm, c)]) /\ (forall y, y <> p -> getn s' y = getn s y).
+Proof.
+  unfold link_child. destruct (n_children (getn s p)) as [cs|] eqn:Ec; try discriminate.
+  destruct (lookup_child cs nm) eqn:El; try discriminate. intros E. inversion E; subst s'.
+  exists cs. repeat split; auto.
+  - rewrite getn_setn_same by (eapply children_some_inrange; eauto). reflexivity.
+  - intros y Hy. apply getn_setn_other. auto.
+Qed.
+
+(* remove: exactly the link name -> c is taken out of the parent, and only if it still leads to c *)
+Lemma unlink_child_exact s p nm c s' : unlink_child s p nm c = Ok s' ->
+  exists cs, n_children (getn s p) = Some cs /\ lookup_child cs nm = Some c /\
+    n_children (getn s' p) = Some (remove_child cs nm) /\ (forall y, y <> p -> getn s' y = getn s y).
+Proof.
+  unfold unlink_child. destruct (n_children (getn s p)) as [cs|] eqn:Ec; try discriminate.
+  destruct (lookup_child cs nm) as [c'|] eqn:El; try discriminate.
+  destruct (Nat.eqb c' c) eqn:Ecc; try discriminate. apply Nat.eqb_eq in Ecc. subst c'.
+  intros E. inversion E; subst s'. exists cs. repeat split; auto.
+  - rewrite getn_setn_same by (eapply children_some_inrange; eauto). reflexivity.
+  - intros y Hy. apply getn_setn_other. auto.
+Qed.
+
+Lemma unlink_child_stale s p nm c : 
+  (forall cs c', n_children (getn s p) = Some cs -> lookup_child cs nm = Some c' -> c' <> c) ->
+  forall s', unlink_child s p nm c <> Ok s'.
+Proof.
+  intros H s'. unfold unlink_child. destruct (n_children (getn s p)) as [cs|] eqn:Ec; try discriminate.
+  destruct (lookup_child cs nm) as [c'|] eqn:El; try discriminate.
+  destruct (Nat.eqb c' c) eqn:Ecc; try discriminate. apply Nat.eqb_eq in Ecc. exfalso. eapply H; eauto.
+Qed.
+
+(* release: decref clears the children of a node only when it takes its count to 0, and changes
+   nothing but counts and (cleared) children *)
+Lemma decref_effect : forall fuel s x s', decref fuel s x = Some s' ->
+  forall y, n_info (getn s' y) = n_info (getn s y) /\ n_data (getn s' y) = n_data (getn s y) /\
+            n_ref (getn s' y) <= n_ref (getn s y) /\
+            (n_children (getn s' y) = n_children (getn s y) \/
+             (n_children (getn s' y) = None /\ n_ref (getn s' y) <= 0 /\ 0 < n_ref (getn s y))).
+Proof.
+  induction fuel as [|fuel IH]; intros s x s' E; [discriminate|].
+  cbn [decref] in E. set (n := getn s x) in *.
+  assert (Hset : forall n1, n_info n1 = n_info n -> n_data n1 = n_data n -> n_ref n1 = n_ref n - 1 ->
+            (n_children n1 = n_children n \/ (n_children n1 = None /\ n_ref n - 1 = 0)) ->
+            forall y, n_info (getn (setn s x n1) y) = n_info (getn s y) /\ n_data (getn (setn s x n1) y) = n_data (getn s y) /\
+              n_ref (getn (setn s x n1) y) <= n_ref (getn s y) /\
+              (n_children (getn (setn s x n1) y) = n_children (getn s y) \/
+               (n_children (getn (setn s x n1) y) = None /\ n_ref (getn (setn s x n1) y) <= 0 /\ 0 < n_ref (getn s y)))).
+  { intros n1 A B C D y. destruct (Nat.lt_ge_cases x (length s)) as [Hx|Hx].
+    - destruct (Nat.eq_dec x y) as [->|Hn].
+      + rewrite getn_setn_same by auto. fold n. repeat split; auto; try lia.
+        destruct D as [D|[D1 D2]]; [left; auto|right; repeat split; auto; lia].
+      + rewrite getn_setn_other by auto. repeat split; auto; lia.
+    - rewrite setn_oob by auto. repeat split; auto; lia. }
+  destruct (n_ref n - 1 =? 0) eqn:Hz.
+  - set (s1 := setn s x (with_children (with_ref n (n_ref n - 1)) None)) in *.
+    assert (H1 : forall y, n_info (getn s1 y) = n_info (getn s y) /\ n_data (getn s1 y) = n_data (getn s y) /\
+              n_ref (getn s1 y) <= n_ref (getn s y) /\
+              (n_children (getn s1 y) = n_children (getn s y) \/
+               (n_children (getn s1 y) = None /\ n_ref (getn s1 y) <= 0 /\ 0 < n_ref (getn s y)))).
+    { apply Hset; cbn; auto. right. split; auto. lia. }
+    clearbody s1. revert s1 H1 E. generalize (child_ids n) as cs.
+    induction cs as [|c cs IHcs]; intros s1 H1 E; cbn [fold_left] in E.
+    + inversion E; subst. exact H1.
+    + destruct (decref fuel s1 c) as [s2|] eqn:E2.
+      * apply (IHcs s2); auto. intros y. destruct (IH _ _ _ E2 y) as (A & B & C & D).
+        destruct (H1 y) as (A1 & B1 & C1 & D1).
+        repeat split; try congruence; try lia.
+        destruct D as [D|(D & D' & D'')].
+        -- destruct D1 as [D1|(D1 & D1' & D1'')]; [left; congruence|right; repeat split; try congruence; lia].
+        -- right. repeat split; auto. destruct D1 as [D1|(D1 & D1' & D1'')]; lia.
+      * exfalso. clear - E. induction cs; cbn in E; [discriminate|auto].
+  - inversion E; subst s'. apply Hset; cbn; auto.
+Qed.
